@@ -378,16 +378,26 @@ func (ps *Points) Collapse() {
 		return
 	}
 
-	pts := make(map[string]Point)
+	// a point is identified by type and key, an empty key is the same as key "0"
+	type typeKey struct {
+		typ string
+		key string
+	}
+
+	pts := make(map[typeKey]Point)
 
 	for _, p := range *ps {
-		pA, OK := pts[p.Type+p.Key]
+		k := typeKey{p.Type, p.Key}
+		if k.key == "" {
+			k.key = "0"
+		}
+		pA, OK := pts[k]
 		if OK {
 			if pA.Time.Before(p.Time) || pA.Time.Equal(p.Time) {
-				pts[p.Type+p.Key] = p
+				pts[k] = p
 			}
 		} else {
-			pts[p.Type+p.Key] = p
+			pts[k] = p
 		}
 	}
 
